@@ -38,7 +38,9 @@ type FieldT struct {
 	// fields to the enclosing object, so they occur in the body (and in presence) without a prefix
 	Embed bool `json:",omitempty"`
 	// TagForm: 0 json:"name"; 1 json:"name,omitempty"; 2 json:",omitempty" and 3 no json tag at all —
-	// in both the JSON name is the Go field name, which is then what JSON says
+	// in both the JSON name is the Go field name, which is then what JSON says; 4 json:"-": the field is
+	// not part of the JSON document at all (the body may still carry a key equal to its Go name);
+	// 5 json:"-,": the field is named "-"
 	TagForm int `json:",omitempty"`
 }
 
@@ -93,6 +95,10 @@ func (t *TypeT) reflectType() reflect.Type {
 			tag = `json:",omitempty"`
 		case 3:
 			tag = ``
+		case 4:
+			tag = `json:"-"`
+		case 5:
+			tag = `json:"-,"`
 		}
 		if f.Tag != "" {
 			tag += ` validate:"` + f.Tag + `"`
@@ -345,8 +351,13 @@ func genTypeIn(r *hx.Rand, depth int, used map[string]bool, embeds bool) *TypeT 
 		}
 		f := FieldT{JSON: name, Kind: k, Tag: hx.Pick(r, tagsFor[k])}
 		if r.Chance(1, 6) {
-			f.TagForm = r.Range(1, 3)
-			if f.TagForm >= 2 {
+			f.TagForm = r.Range(1, 5)
+			if f.TagForm == 5 {
+				f.JSON = "-"
+				if used[key(f.JSON)] {
+					f.TagForm, f.JSON = 1, name
+				}
+			} else if f.TagForm >= 2 {
 				// the JSON name is the Go field name: F<index>
 				f.JSON = "F" + strconv.Itoa(len(t.Fields))
 				if used[key(f.JSON)] {
@@ -775,7 +786,10 @@ func showsOf(base string, v reflect.Value, depth int, out *[]string) {
 				showsOf(base, v.Field(i), depth+1, out) // its fields belong to the enclosing JSON object
 				continue
 			}
-			if name == "" || name == "-" {
+			if t.Field(i).Tag.Get("json") == "-" {
+				continue // has no JSON path: nothing a redactor could cover
+			}
+			if name == "" {
 				name = t.Field(i).Name
 			}
 			showsOf(base+"."+name, v.Field(i), depth+1, out)
@@ -815,11 +829,11 @@ func findField(cur reflect.Value, part string) (reflect.Value, reflect.StructFie
 func findField2(cur reflect.Value, part string) (fv reflect.Value, sf reflect.StructField, promoted bool, ok bool) {
 	t := cur.Type()
 	for i := t.NumField() - 1; i >= 0; i-- {
-		if isPromoted(t.Field(i)) {
-			continue
+		if isPromoted(t.Field(i)) || t.Field(i).Tag.Get("json") == "-" {
+			continue // json:"-": no JSON key addresses this field
 		}
 		name, _, _ := strings.Cut(t.Field(i).Tag.Get("json"), ",")
-		if name == "" || name == "-" {
+		if name == "" {
 			name = t.Field(i).Name
 		}
 		if name == part {
@@ -1041,7 +1055,7 @@ func jsonPathOf(sns string, t reflect.Type) string {
 			panic("jsonPathOf: no field " + name + " in " + cur.String())
 		}
 		jn, _, _ := strings.Cut(f.Tag.Get("json"), ",")
-		if jn == "" {
+		if jn == "" || f.Tag.Get("json") == "-" {
 			jn = f.Name
 		}
 		cur = f.Type
@@ -1377,7 +1391,7 @@ func emit(id string, c caseT, st *hx.Stats) string {
 		// app.Context.Bind reads a JSON body only into structs that declare a json tag somewhere at the top
 		tagged := false
 		for _, f := range c.T.Fields {
-			if !f.Embed && f.TagForm != 3 {
+			if !f.Embed && f.TagForm != 3 && f.TagForm != 4 {
 				tagged = true
 			}
 		}
@@ -1674,9 +1688,10 @@ func fixedCases() []caseT {
 		{Body: `{"id":"x","kind":"zzz","name":"n","token":"q9_short"}`, Named: "FullE", Mode: 1, Redact: []string{"token", "id"}},                                          // K05h (full)
 		{Body: `{"users":[{"name":"al","password":"q7_hunter2x"},{"name":"bo","password":"q8_s3cretxx"}]}`, Named: "FullU", Mode: 1, Redact: []string{"users.1.password"}}, // container value, unexported embedded struct
 		{Body: `{"owner":{"name":"a","password":"short","pin":"12"}}`, Named: "FullU", Mode: 0},
-		{Body: `{"F0":"ab","F1":"x"}`, T: &TypeT{Fields: []FieldT{{JSON: "F0", Kind: "string", Tag: "min=3", TagForm: 2}, {JSON: "F1", Kind: "string", Tag: "min=3", TagForm: 3}}}},                                        // K05j
-		{Body: `{"F0":"ab","F1":"x"}`, T: &TypeT{Fields: []FieldT{{JSON: "F0", Kind: "string", Tag: "min=3", TagForm: 2}, {JSON: "F1", Kind: "string", Tag: "min=3", TagForm: 3}}}, Mode: 1},                               // K05j (full)
-		{Body: `{"1":"abc","2":{"3":"x"}}`, T: &TypeT{Fields: []FieldT{{JSON: "1", Kind: "string", Tag: "email"}, {JSON: "2", Kind: "struct", Sub: &TypeT{Fields: []FieldT{{JSON: "3", Kind: "string", Tag: "min=2"}}}}}}}, // K05d
+		{Body: `{"F0":"ab","F1":"x"}`, T: &TypeT{Fields: []FieldT{{JSON: "F0", Kind: "string", Tag: "min=3", TagForm: 2}, {JSON: "F1", Kind: "string", Tag: "min=3", TagForm: 3}}}},                                                           // K05j
+		{Body: `{"F0":"ab","F1":"x"}`, T: &TypeT{Fields: []FieldT{{JSON: "F0", Kind: "string", Tag: "min=3", TagForm: 2}, {JSON: "F1", Kind: "string", Tag: "min=3", TagForm: 3}}}, Mode: 1},                                                  // K05j (full)
+		{Body: `{"name":"ab","F1":"x","-":"q"}`, T: &TypeT{Fields: []FieldT{{JSON: "name", Kind: "string", Tag: "min=2"}, {JSON: "F1", Kind: "string", Tag: "required", TagForm: 4}, {JSON: "-", Kind: "string", Tag: "min=3", TagForm: 5}}}}, // K05k
+		{Body: `{"1":"abc","2":{"3":"x"}}`, T: &TypeT{Fields: []FieldT{{JSON: "1", Kind: "string", Tag: "email"}, {JSON: "2", Kind: "struct", Sub: &TypeT{Fields: []FieldT{{JSON: "3", Kind: "string", Tag: "min=2"}}}}}}},                    // K05d
 	}
 }
 
